@@ -6,12 +6,12 @@
 namespace c14 {
 
 template <class T, T Shared::*M> void add_tm(const std::string& pre, const std::string& cls) {
-  add(pre + ".forward", cls, 2, true, [](const Shared* S, Rng& r, Res& o, int) {
+  add(pre + ".forward", cls, 2, true, [](const Shared* S, Rng& r, Res& o, int pv) {
     const T& t = S->*M; real x, y, gam, k; real lon0 = glon(r), lat = glat(r);
     real lon = lon0 + (r.coin(0.8) ? r.uniform(-40, 40) : r.uniform(-180, 180));
     t.Forward(lon0, lat, lon, x, y, gam, k); o.d(x); o.d(y); o.d(gam); o.d(k);
     t.Forward(lon0, lat, lon, x, y); o.d(x); o.d(y); });
-  add(pre + ".reverse", cls, 2, true, [](const Shared* S, Rng& r, Res& o, int) {
+  add(pre + ".reverse", cls, 2, true, [](const Shared* S, Rng& r, Res& o, int pv) {
     const T& t = S->*M; real lat, lon, gam, k; real a = t.EquatorialRadius();
     real x = a * r.uniform(-1, 1), y = a * r.uniform(-2, 2), lon0 = glon(r);
     t.Reverse(lon0, x, y, lat, lon, gam, k); o.d(lat); o.d(lon); o.d(gam); o.d(k);
@@ -19,11 +19,11 @@ template <class T, T Shared::*M> void add_tm(const std::string& pre, const std::
     o.d(t.EquatorialRadius()); o.d(t.Flattening()); o.d(t.CentralScale()); });
 }
 template <class T, T Shared::*M> void add_conic(const std::string& pre, const std::string& cls) {
-  add(pre + ".forward", cls, 1, true, [](const Shared* S, Rng& r, Res& o, int) {
+  add(pre + ".forward", cls, 1, true, [](const Shared* S, Rng& r, Res& o, int pv) {
     const T& t = S->*M; real x, y, gam, k; real lon0 = glon(r), lat = glat(r), lon = glon(r);
     t.Forward(lon0, lat, lon, x, y, gam, k); o.d(x); o.d(y); o.d(gam); o.d(k);
     t.Forward(lon0, lat, lon, x, y); o.d(x); o.d(y); });
-  add(pre + ".reverse", cls, 1, true, [](const Shared* S, Rng& r, Res& o, int) {
+  add(pre + ".reverse", cls, 1, true, [](const Shared* S, Rng& r, Res& o, int pv) {
     const T& t = S->*M; real lat, lon, gam, k; real a = t.EquatorialRadius();
     real x = a * r.uniform(-3, 3), y = a * r.uniform(-3, 3), lon0 = glon(r);
     t.Reverse(lon0, x, y, lat, lon, gam, k); o.d(lat); o.d(lon); o.d(gam); o.d(k);
@@ -46,48 +46,52 @@ inline void register_b() {
   add_conic<LambertConformalConic, &Shared::lcc2>("lcc2", "LambertConformalConic");
   add_conic<AlbersEqualArea, &Shared::alb1>("albers1", "AlbersEqualArea");
   add_conic<AlbersEqualArea, &Shared::alb2>("albers2", "AlbersEqualArea");
+  add_conic<LambertConformalConic, &Shared::lcc3>("lcc-sincos", "LambertConformalConic(sin/cos ctor)");
+  add_conic<LambertConformalConic, &Shared::lcc4>("lcc-setscale", "LambertConformalConic(SetScale)");
+  add_conic<AlbersEqualArea, &Shared::alb3>("albers-sincos", "AlbersEqualArea(sin/cos ctor)");
+  add_conic<AlbersEqualArea, &Shared::alb4>("albers-setscale", "AlbersEqualArea(SetScale)");
 
-  add("polarstereo.forward", "PolarStereographic", 1, true, [](const Shared* S, Rng& r, Res& o, int) {
+  add("polarstereo.forward", "PolarStereographic", 1, true, [](const Shared* S, Rng& r, Res& o, int pv) {
     real x, y, gam, k; bool np = r.coin(); real lat = glat(r), lon = glon(r);
-    S->ps.Forward(np, lat, lon, x, y, gam, k); o.d(x); o.d(y); o.d(gam); o.d(k);
-    S->ps.Forward(np, lat, lon, x, y); o.d(x); o.d(y); });
-  add("polarstereo.reverse", "PolarStereographic", 1, true, [](const Shared* S, Rng& r, Res& o, int) {
+    VAR(psv).Forward(np, lat, lon, x, y, gam, k); o.d(x); o.d(y); o.d(gam); o.d(k);
+    VAR(psv).Forward(np, lat, lon, x, y); o.d(x); o.d(y); });
+  add("polarstereo.reverse", "PolarStereographic", 1, true, [](const Shared* S, Rng& r, Res& o, int pv) {
     real lat, lon, gam, k; bool np = r.coin(); real a = S->P.a, x = a * r.uniform(-3, 3), y = a * r.uniform(-3, 3);
-    S->ps.Reverse(np, x, y, lat, lon, gam, k); o.d(lat); o.d(lon); o.d(gam); o.d(k);
-    S->ps.Reverse(np, x, y, lat, lon); o.d(lat); o.d(lon);
-    o.d(S->ps.EquatorialRadius()); o.d(S->ps.Flattening()); o.d(S->ps.CentralScale()); });
+    VAR(psv).Reverse(np, x, y, lat, lon, gam, k); o.d(lat); o.d(lon); o.d(gam); o.d(k);
+    VAR(psv).Reverse(np, x, y, lat, lon); o.d(lat); o.d(lon);
+    o.d(VAR(psv).EquatorialRadius()); o.d(VAR(psv).Flattening()); o.d(VAR(psv).CentralScale()); });
 
-  add("geocentric.forward", "Geocentric", 1, true, [](const Shared* S, Rng& r, Res& o, int) {
+  add("geocentric.forward", "Geocentric", 1, true, [](const Shared* S, Rng& r, Res& o, int pv) {
     real X, Y, Z; std::vector<real> M(9); real lat = glat(r), lon = glon(r), h = gh(r);
     S->gc.Forward(lat, lon, h, X, Y, Z); o.d(X); o.d(Y); o.d(Z);
     S->gc.Forward(lat, lon, h, X, Y, Z, M); o.d(X); o.d(Y); o.d(Z); for (real m : M) o.d(m); });
-  add("geocentric.reverse", "Geocentric", 2, true, [](const Shared* S, Rng& r, Res& o, int) {
+  add("geocentric.reverse", "Geocentric", 2, true, [](const Shared* S, Rng& r, Res& o, int pv) {
     real lat, lon, h; std::vector<real> M(9); real a = S->P.a; double u = r.u();
     real X = a * r.uniform(-2, 2), Y = a * r.uniform(-2, 2), Z = a * r.uniform(-2, 2);
     if (u < 0.1) { X = 0; Y = 0; } else if (u < 0.2) { X *= 1e-9; Y *= 1e-9; Z *= 1e-9; } else if (u < 0.25) { X = Y = Z = 0; }
     S->gc.Reverse(X, Y, Z, lat, lon, h); o.d(lat); o.d(lon); o.d(h);
     S->gc.Reverse(X, Y, Z, lat, lon, h, M); o.d(lat); o.d(lon); o.d(h); for (real m : M) o.d(m);
     o.d(S->gc.EquatorialRadius()); o.d(S->gc.Flattening()); o.b(S->gc.Init()); });
-  add("localcartesian.forward", "LocalCartesian", 1, true, [](const Shared* S, Rng& r, Res& o, int) {
+  add("localcartesian.forward", "LocalCartesian", 1, true, [](const Shared* S, Rng& r, Res& o, int pv) {
     real x, y, z; std::vector<real> M(9); real lat = glat(r), lon = glon(r), h = gh(r);
-    S->lc.Forward(lat, lon, h, x, y, z); o.d(x); o.d(y); o.d(z);
-    S->lc.Forward(lat, lon, h, x, y, z, M); o.d(x); o.d(y); o.d(z); for (real m : M) o.d(m); });
-  add("localcartesian.reverse", "LocalCartesian", 1, true, [](const Shared* S, Rng& r, Res& o, int) {
+    VAR(lcv).Forward(lat, lon, h, x, y, z); o.d(x); o.d(y); o.d(z);
+    VAR(lcv).Forward(lat, lon, h, x, y, z, M); o.d(x); o.d(y); o.d(z); for (real m : M) o.d(m); });
+  add("localcartesian.reverse", "LocalCartesian", 1, true, [](const Shared* S, Rng& r, Res& o, int pv) {
     real lat, lon, h; std::vector<real> M(9); real a = S->P.a;
     real x = a * r.uniform(-1, 1), y = a * r.uniform(-1, 1), z = a * r.uniform(-1, 0.5);
-    S->lc.Reverse(x, y, z, lat, lon, h); o.d(lat); o.d(lon); o.d(h);
-    S->lc.Reverse(x, y, z, lat, lon, h, M); o.d(lat); o.d(lon); o.d(h); for (real m : M) o.d(m);
-    o.d(S->lc.LatitudeOrigin()); o.d(S->lc.LongitudeOrigin()); o.d(S->lc.HeightOrigin()); o.d(S->lc.EquatorialRadius()); o.d(S->lc.Flattening()); });
+    VAR(lcv).Reverse(x, y, z, lat, lon, h); o.d(lat); o.d(lon); o.d(h);
+    VAR(lcv).Reverse(x, y, z, lat, lon, h, M); o.d(lat); o.d(lon); o.d(h); for (real m : M) o.d(m);
+    o.d(VAR(lcv).LatitudeOrigin()); o.d(VAR(lcv).LongitudeOrigin()); o.d(VAR(lcv).HeightOrigin()); o.d(VAR(lcv).EquatorialRadius()); o.d(VAR(lcv).Flattening()); });
 
-  add("ellipsoid.lat.forward", "Ellipsoid", 1, true, [](const Shared* S, Rng& r, Res& o, int) {
+  add("ellipsoid.lat.forward", "Ellipsoid", 1, true, [](const Shared* S, Rng& r, Res& o, int pv) {
     const Ellipsoid& e = S->ell; real phi = glat(r);
     o.d(e.ParametricLatitude(phi)); o.d(e.GeocentricLatitude(phi)); o.d(e.RectifyingLatitude(phi)); o.d(e.AuthalicLatitude(phi));
     o.d(e.ConformalLatitude(phi)); o.d(e.IsometricLatitude(phi)); });
-  add("ellipsoid.lat.inverse", "Ellipsoid", 1, true, [](const Shared* S, Rng& r, Res& o, int) {
+  add("ellipsoid.lat.inverse", "Ellipsoid", 1, true, [](const Shared* S, Rng& r, Res& o, int pv) {
     const Ellipsoid& e = S->ell; real phi = glat(r);
     o.d(e.InverseParametricLatitude(phi)); o.d(e.InverseGeocentricLatitude(phi)); o.d(e.InverseRectifyingLatitude(phi));
     o.d(e.InverseAuthalicLatitude(phi)); o.d(e.InverseConformalLatitude(phi)); o.d(e.InverseIsometricLatitude(r.uniform(-400, 400))); });
-  add("ellipsoid.measures", "Ellipsoid", 1, true, [](const Shared* S, Rng& r, Res& o, int) {
+  add("ellipsoid.measures", "Ellipsoid", 1, true, [](const Shared* S, Rng& r, Res& o, int pv) {
     const Ellipsoid& e = S->ell; real phi = glat(r);
     o.d(e.QuarterMeridian()); o.d(e.Area()); o.d(e.Volume()); o.d(e.EquatorialRadius()); o.d(e.PolarRadius()); o.d(e.Flattening());
     o.d(e.SecondFlattening()); o.d(e.ThirdFlattening()); o.d(e.EccentricitySq()); o.d(e.SecondEccentricitySq()); o.d(e.ThirdEccentricitySq());
@@ -99,30 +103,30 @@ inline void register_b() {
     for (int in = 0; in < AuxLatitude::AUXNUMBER; ++in)
       for (int out = 0; out < AuxLatitude::AUXNUMBER; ++out) {
         std::string nm = std::string("aux.convert.") + (ex ? "exact" : "series") + "/" + std::to_string(in) + ">" + std::to_string(out);
-        add(nm, ex ? "AuxLatitude(exact)" : "AuxLatitude(series)", 0.25, true, [](const Shared* S, Rng& r, Res& o, int p) {
-          int ex = p / 100, in = (p / 10) % 10, out = p % 10;
-          AuxAngle z = gaux(r); AuxAngle e = S->aux.Convert(in, out, z, ex != 0); o.d(e.y()); o.d(e.x());
-          o.d(S->aux.Convert(in, out, glat(r), ex != 0)); }, ex * 100 + in * 10 + out);
+        add(nm, ex ? "AuxLatitude(exact)" : "AuxLatitude(series)", 0.25, true, [](const Shared* S, Rng& r, Res& o, int pv) {
+          int q = pv % 1000, ex = q / 100, in = (q / 10) % 10, out = q % 10;
+          AuxAngle z = gaux(r); AuxAngle e = VAR(auxv).Convert(in, out, z, ex != 0); o.d(e.y()); o.d(e.x());
+          o.d(VAR(auxv).Convert(in, out, glat(r), ex != 0)); }, ex * 100 + in * 10 + out);
       }
   for (int in = 0; in < AuxLatitude::AUXNUMBER; ++in)
     for (int out = 0; out < AuxLatitude::AUXNUMBER; ++out) {
       std::string nm = "daux.dconvert/" + std::to_string(in) + ">" + std::to_string(out);
-      add(nm, "DAuxLatitude", 0.25, true, [](const Shared* S, Rng& r, Res& o, int p) {
-        int in = p / 10, out = p % 10; AuxAngle z1 = gaux(r);
+      add(nm, "DAuxLatitude", 0.25, true, [](const Shared* S, Rng& r, Res& o, int pv) {
+        int q = pv % 1000, in = q / 10, out = q % 10; AuxAngle z1 = gaux(r);
         AuxAngle z2 = r.coin(0.3) ? AuxAngle::degrees(z1.degrees() + r.sign() * r.logu(1e-14, 1e-3)) : gaux(r);
         o.d(S->daux.DConvert(in, out, z1, z2)); }, in * 10 + out);
     }
-  add("aux.to-from-auxiliary", "AuxLatitude(exact)", 1, true, [](const Shared* S, Rng& r, Res& o, int) {
+  add("aux.to-from-auxiliary", "AuxLatitude(exact)", 1, true, [](const Shared* S, Rng& r, Res& o, int pv) {
     int k = r.range(0, AuxLatitude::AUXNUMBER - 1); real diff = -1; int niter = -1; AuxAngle phi = gaux(r);
-    AuxAngle e = S->aux.ToAuxiliary(k, phi, &diff); o.d(e.y()); o.d(e.x()); o.d(diff);
-    AuxAngle b = S->aux.FromAuxiliary(k, e, &niter); o.d(b.y()); o.d(b.x()); o.i(niter); });
-  add("aux.radii", "AuxLatitude(series)", 0.5, true, [](const Shared* S, Rng& r, Res& o, int) {
-    bool ex = r.coin(); o.d(S->aux.RectifyingRadius(ex)); o.d(S->aux.AuthalicRadiusSquared(ex));
-    o.d(S->aux.EquatorialRadius()); o.d(S->aux.PolarSemiAxis()); o.d(S->aux.Flattening()); });
+    AuxAngle e = VAR(auxv).ToAuxiliary(k, phi, &diff); o.d(e.y()); o.d(e.x()); o.d(diff);
+    AuxAngle b = VAR(auxv).FromAuxiliary(k, e, &niter); o.d(b.y()); o.d(b.x()); o.i(niter); });
+  add("aux.radii", "AuxLatitude(series)", 0.5, true, [](const Shared* S, Rng& r, Res& o, int pv) {
+    bool ex = r.coin(); o.d(VAR(auxv).RectifyingRadius(ex)); o.d(VAR(auxv).AuthalicRadiusSquared(ex));
+    o.d(VAR(auxv).EquatorialRadius()); o.d(VAR(auxv).PolarSemiAxis()); o.d(VAR(auxv).Flattening()); });
   add("aux.clenshaw.static", "AuxLatitude(series)", 0.5, false, [](const Shared*, Rng& r, Res& o, int) {
     real c[6]; for (real& x : c) x = r.uniform(-1, 1) * 1e-3; real z = r.uniform(-1.6, 1.6);
     o.d(AuxLatitude::Clenshaw(true, std::sin(z), std::cos(z), c, 6)); o.d(AuxLatitude::Clenshaw(false, std::sin(z), std::cos(z), c, 6)); });
-  add("daux.exact-differences", "DAuxLatitude", 1, true, [](const Shared* S, Rng& r, Res& o, int) {
+  add("daux.exact-differences", "DAuxLatitude", 1, true, [](const Shared* S, Rng& r, Res& o, int pv) {
     AuxAngle p1 = gaux(r); AuxAngle p2 = r.coin(0.3) ? AuxAngle::degrees(p1.degrees() + r.sign() * r.logu(1e-14, 1e-3)) : gaux(r);
     o.d(S->daux.DParametric(p1, p2)); o.d(S->daux.DRectifying(p1, p2)); o.d(S->daux.DIsometric(p1, p2)); });
   add("daux.statics", "DAuxLatitude", 0.5, false, [](const Shared*, Rng& r, Res& o, int) {
@@ -131,16 +135,16 @@ inline void register_b() {
     o.d(DAuxLatitude::DClenshaw(false, 1, std::sin(z1), std::cos(z1), std::sin(z2), std::cos(z2), c, 6));
     o.d(DAuxLatitude::Dlam(std::tan(z1), std::tan(z2))); o.d(DAuxLatitude::Dp0Dpsi(std::tan(z1), std::tan(z2))); });
 
-  add("elliptic.incomplete.phi", "EllipticFunction", 1, true, [](const Shared* S, Rng& r, Res& o, int) {
-    const EllipticFunction& e = S->ef; real phi = r.coin(0.1) ? pk(r, {0.0, 1.5707963267948966, -1.5707963267948966, 3.141592653589793}) : r.uniform(-10, 10);
+  add("elliptic.incomplete.phi", "EllipticFunction", 1, true, [](const Shared* S, Rng& r, Res& o, int pv) {
+    const EllipticFunction& e = VAR(efv); real phi = r.coin(0.1) ? pk(r, {0.0, 1.5707963267948966, -1.5707963267948966, 3.141592653589793}) : r.uniform(-10, 10);
     o.d(e.F(phi)); o.d(e.E(phi)); o.d(e.Pi(phi)); o.d(e.D(phi)); o.d(e.G(phi)); o.d(e.H(phi)); o.d(e.Ed(phi * 57.3)); o.d(e.Einv(phi)); });
-  add("elliptic.incomplete.sncndn", "EllipticFunction", 1, true, [](const Shared* S, Rng& r, Res& o, int) {
-    const EllipticFunction& e = S->ef; real phi = r.uniform(-1.57, 1.57), sn = std::sin(phi), cn = std::cos(phi), dn = e.Delta(sn, cn);
+  add("elliptic.incomplete.sncndn", "EllipticFunction", 1, true, [](const Shared* S, Rng& r, Res& o, int pv) {
+    const EllipticFunction& e = VAR(efv); real phi = r.uniform(-1.57, 1.57), sn = std::sin(phi), cn = std::cos(phi), dn = e.Delta(sn, cn);
     o.d(e.F(sn, cn, dn)); o.d(e.E(sn, cn, dn)); o.d(e.Pi(sn, cn, dn)); o.d(e.D(sn, cn, dn)); o.d(e.G(sn, cn, dn)); o.d(e.H(sn, cn, dn));
     o.d(e.deltaF(sn, cn, dn)); o.d(e.deltaE(sn, cn, dn)); o.d(e.deltaPi(sn, cn, dn)); o.d(e.deltaD(sn, cn, dn)); o.d(e.deltaG(sn, cn, dn));
     o.d(e.deltaH(sn, cn, dn)); o.d(e.deltaEinv(sn, cn)); });
-  add("elliptic.jacobi", "EllipticFunction", 1, true, [](const Shared* S, Rng& r, Res& o, int) {
-    const EllipticFunction& e = S->ef; real x = r.uniform(-6, 6), sn, cn, dn;
+  add("elliptic.jacobi", "EllipticFunction", 1, true, [](const Shared* S, Rng& r, Res& o, int pv) {
+    const EllipticFunction& e = VAR(efv); real x = r.uniform(-6, 6), sn, cn, dn;
     e.sncndn(x, sn, cn, dn); o.d(sn); o.d(cn); o.d(dn); o.d(e.am(x)); o.d(e.am(x, sn, cn, dn)); o.d(sn); o.d(cn); o.d(dn);
     o.d(e.k2()); o.d(e.kp2()); o.d(e.alpha2()); o.d(e.alphap2()); o.d(e.K()); o.d(e.E()); o.d(e.D()); o.d(e.KE()); o.d(e.Pi()); o.d(e.G()); o.d(e.H()); });
   add("elliptic.carlson.static", "EllipticFunction", 1, false, [](const Shared*, Rng& r, Res& o, int) {
@@ -148,16 +152,28 @@ inline void register_b() {
     o.d(EllipticFunction::RF(x, y, z)); o.d(EllipticFunction::RF(x, y)); o.d(EllipticFunction::RC(x, y)); o.d(EllipticFunction::RG(x, y, z));
     o.d(EllipticFunction::RG(x, y)); o.d(EllipticFunction::RJ(x, y, z, p)); o.d(EllipticFunction::RD(x, y, z)); });
 
-  add("normalgravity.surface", "NormalGravity", 1, true, [](const Shared* S, Rng& r, Res& o, int) {
-    const NormalGravity& n = S->ng; real gy, gz; o.d(n.SurfaceGravity(glat(r))); o.d(n.Gravity(glat(r), gh(r), gy, gz)); o.d(gy); o.d(gz); });
-  add("normalgravity.potentials", "NormalGravity", 1, true, [](const Shared* S, Rng& r, Res& o, int) {
-    const NormalGravity& n = S->ng; real a = S->P.a, X = a * r.uniform(-2, 2), Y = a * r.uniform(-2, 2), Z = a * r.uniform(-2, 2), gx, gy, gz;
+  add("normalgravity.surface", "NormalGravity", 1, true, [](const Shared* S, Rng& r, Res& o, int pv) {
+    const NormalGravity& n = VAR(ngv); real gy, gz; o.d(n.SurfaceGravity(glat(r))); o.d(n.Gravity(glat(r), gh(r), gy, gz)); o.d(gy); o.d(gz); });
+  add("normalgravity.potentials", "NormalGravity", 1, true, [](const Shared* S, Rng& r, Res& o, int pv) {
+    const NormalGravity& n = VAR(ngv); real a = S->P.a, X = a * r.uniform(-2, 2), Y = a * r.uniform(-2, 2), Z = a * r.uniform(-2, 2), gx, gy, gz;
     o.d(n.U(X, Y, Z, gx, gy, gz)); o.d(gx); o.d(gy); o.d(gz); o.d(n.V0(X, Y, Z, gx, gy, gz)); o.d(gx); o.d(gy); o.d(gz);
     o.d(n.Phi(X, Y, gx, gy)); o.d(gx); o.d(gy); });
-  add("normalgravity.constants", "NormalGravity", 0.5, true, [](const Shared* S, Rng& r, Res& o, int) {
-    const NormalGravity& n = S->ng; o.d(n.DynamicalFormFactor(2 * r.range(1, 6))); o.d(n.DynamicalFormFactor()); o.d(n.EquatorialRadius());
+  add("normalgravity.constants", "NormalGravity", 0.5, true, [](const Shared* S, Rng& r, Res& o, int pv) {
+    const NormalGravity& n = VAR(ngv); o.d(n.DynamicalFormFactor(2 * r.range(1, 6))); o.d(n.DynamicalFormFactor()); o.d(n.EquatorialRadius());
     o.d(n.MassConstant()); o.d(n.AngularVelocity()); o.d(n.Flattening()); o.d(n.EquatorialGravity()); o.d(n.PolarGravity());
     o.d(n.GravityFlattening()); o.d(n.SurfacePotential()); o.b(n.Init()); o.d(n.Earth().EquatorialRadius()); });
+  // ---- the same operations on objects built through the alternative constructors / factories
+  add_variant("aux.convert.series/", "auxaxes.convert.series/", "AuxLatitude::axes(series)", 1);
+  add_variant("aux.convert.exact/", "auxaxes.convert.exact/", "AuxLatitude::axes(exact)", 1);
+  add_variant("aux.to-from-auxiliary", "auxaxes.to-from-auxiliary", "AuxLatitude::axes(exact)", 1);
+  add_variant("aux.radii", "auxaxes.radii", "AuxLatitude::axes(series)", 1);
+  add_variant("polarstereo.", "polarstereo-setscale.", "PolarStereographic(SetScale)", 1);
+  add_variant("localcartesian.", "localcartesian-reset.", "LocalCartesian(default+Reset)", 1);
+  add_variant("elliptic.incomplete.", "elliptic4.incomplete.", "EllipticFunction(4-arg ctor)", 1);
+  add_variant("elliptic.jacobi", "elliptic4.jacobi", "EllipticFunction(4-arg ctor)", 1);
+  add_variant("normalgravity.surface", "normalgravityJ2.surface", "NormalGravity(J2 ctor)", 1);
+  add_variant("normalgravity.potentials", "normalgravityJ2.potentials", "NormalGravity(J2 ctor)", 1);
+  add_variant("normalgravity.constants", "normalgravityJ2.constants", "NormalGravity(J2 ctor)", 1);
   add("normalgravity.statics", "NormalGravity", 0.5, false, [](const Shared*, Rng& r, Res& o, int) {
     real f = r.uniform(-0.05, 0.05), a = 6378137, GM = 3.986004418e14, om = 7.292115e-5;
     real J2 = NormalGravity::FlatteningToJ2(a, GM, om, f); o.d(J2); o.d(NormalGravity::J2ToFlattening(a, GM, om, J2)); });
